@@ -605,8 +605,37 @@ func genC14(c *Ctx) any {
 		bases = append(bases, q)
 		pool = append(pool, omissions(r, q)...)
 	}
+	// many failing queries in ONE request (worker pools, error channels, partial responses)
+	for _, k := range []int{7, 8, 9, 16, 17, 33, 64, 100, 257} {
+		if k > 33 && !c.Thorough() && r.Chance(1, 2) {
+			continue
+		}
+		for variant := 0; variant < 3; variant++ {
+			req := &pb.QueryRequest{}
+			for i := 0; i < k; i++ {
+				switch variant {
+				case 0:
+					req.Queries = append(req.Queries, &pb.Query{})
+				case 1:
+					req.Queries = append(req.Queries, &pb.Query{Expr: Eq("nosuchcol", "x").ToProto()})
+				default:
+					req.Queries = append(req.Queries, &pb.Query{Expr: &pb.Query_Expression{Value: &pb.Query_Expression_Not_{Not: &pb.Query_Expression_Not{}}}})
+				}
+			}
+			valid := bases[r.Intn(len(bases))].ToProto(5)
+			switch r.Intn(3) {
+			case 0:
+				req.Queries = append(req.Queries, valid)
+			case 1:
+				req.Queries = append([]*pb.Query{valid}, req.Queries...)
+			}
+			if b, err := proto.Marshal(req); err == nil {
+				pool = append(pool, Hostile{Wire: S(b), What: fmt.Sprintf("batch of %d failing queries (variant %d)", k, variant)})
+			}
+		}
+	}
 	leaf := Eq(firstCol(si), "v0").ToProto()
-	for _, d := range []int{50, 99, 100, 101, 500, 2000, 9000} {
+	for _, d := range []int{50, 99, 100, 101, 127, 128, 129, 255, 256, 500, 1000, 2000, 4096, 9000} {
 		if d > 500 && !c.Thorough() && r.Chance(2, 3) {
 			continue
 		}
